@@ -24,7 +24,7 @@ CHECKS = {
     "C11": {"sim": "searchsim", "quick": {"runs": 20000, "wall_s": 70, "runs_per_spec": 25, "run_wall_cap": 25, "spec": {}}, "thorough": {"runs": 1000000, "wall_s": 1500, "runs_per_spec": 30, "run_wall_cap": 40, "spec": {"max_h": 7, "max_r": 5, "body_rules": 4}}},
     "C16": {"sim": "searchsim", "quick": {"runs": 20000, "wall_s": 70, "runs_per_spec": 25, "run_wall_cap": 25, "spec": {"generators": True}, "gen_fault_rate": 0.08}, "thorough": {"runs": 1000000, "wall_s": 1500, "runs_per_spec": 30, "run_wall_cap": 40, "spec": {"max_h": 5, "max_r": 3}, "gen_fault_rate": 0.08}},
     "C09": {"sim": "treesim", "quick": {"runs": 60000, "wall_s": 45, "runs_per_spec": 1, "run_wall_cap": 10}, "thorough": {"runs": 3000000, "wall_s": 1200, "runs_per_spec": 1, "run_wall_cap": 10}},
-    "C10": {"sim": "treesim", "quick": {"runs": 60000, "wall_s": 45, "runs_per_spec": 1, "run_wall_cap": 10}, "thorough": {"runs": 3000000, "wall_s": 1200, "runs_per_spec": 1, "run_wall_cap": 10}},
+    "C10": {"further": [{"sim": "searchsim", "quick": {"runs": 20000, "wall_s": 45, "runs_per_spec": 25, "run_wall_cap": 25, "spec": {}}, "thorough": {"runs": 1000000, "wall_s": 1200, "runs_per_spec": 30, "run_wall_cap": 40, "spec": {"max_h": 7, "max_r": 5}}}], "sim": "treesim", "quick": {"runs": 60000, "wall_s": 45, "runs_per_spec": 1, "run_wall_cap": 10}, "thorough": {"runs": 3000000, "wall_s": 1200, "runs_per_spec": 1, "run_wall_cap": 10}},
     "C17": {"sim": "reprosim", "quick": {"runs": 4000, "wall_s": 70, "runs_per_spec": 12, "run_wall_cap": 60, "spec": {"max_h": 3, "max_r": 2, "body_rules": 2}}, "thorough": {"runs": 200000, "wall_s": 1500, "runs_per_spec": 16, "run_wall_cap": 90, "spec": {}}},
     "C18": {"sim": "isolationsim", "quick": {"runs": 4000, "wall_s": 70, "runs_per_spec": 10, "run_wall_cap": 60, "spec": {}}, "thorough": {"runs": 200000, "wall_s": 1500, "runs_per_spec": 12, "run_wall_cap": 90, "spec": {}}},
     "C12": {
